@@ -8,6 +8,8 @@ import (
 	"math/rand"
 	"os"
 	"path/filepath"
+	"reflect"
+	"runtime"
 	"strings"
 	"testing"
 )
@@ -48,18 +50,8 @@ func TestVerifSearch_AuthIp(t *testing.T) {
 				hist = append(hist, step{[]string{"enable: true", "enable: true", "enable: false", ""}[rng.Intn(4)], l, rng.Intn(8) == 0})
 			}
 		}
-		// fresh state: empty the live map through its own API (zeroing the variable would race with the
-		// library's background grow goroutine of the previous history)
-		for IpMap.Len() > 0 {
-			var keys []interface{}
-			for kv := range IpMap.Iter() {
-				keys = append(keys, kv.Key)
-			}
-			for _, k := range keys {
-				IpMap.Del(k)
-			}
-		}
-		IpMap.enable = false
+		// fresh state: nothing published, whitelist off (no background goroutine touches the variable)
+		IpMap = ipMap{}
 		a := &AuthIp{path: dir, name: name}
 		wantEnable, want := false, map[string]bool{}
 		var trace []string
@@ -104,6 +96,55 @@ func TestVerifSearch_AuthIp(t *testing.T) {
 					verifWitness(t, "after the reload history %v: Validate(%q) = %v, the file admits it: %v", trace, u, got, exp)
 					return
 				}
+			}
+		}
+	}
+}
+
+// Witness for the rapid-reload defect (fixed): a reload listing n addresses followed at once by a reload
+// listing none must leave nobody admitted. With the shared lock-free map of the original code a deletion
+// racing with the map's background resize left deleted entries reachable through the new index (about one
+// round in a thousand). Each round starts from a fresh variable; where the variable still embeds the
+// lock-free map the round first waits for that map's resize goroutine to finish.
+func TestVerifSearch_AuthIpRapidReload(t *testing.T) {
+	dir := t.TempDir()
+	name := filepath.Join(dir, "authip.yaml")
+	idle := func() {
+		hm := reflect.ValueOf(&IpMap).Elem().FieldByName("HashMap")
+		if !hm.IsValid() {
+			return
+		}
+		for hm.FieldByName("resizing").Uint() != 0 {
+			runtime.Gosched()
+		}
+	}
+	rounds := 1500
+	if verifThorough() {
+		rounds = 6000
+	}
+	for round := 0; round < rounds; round++ {
+		idle()
+		IpMap = ipMap{}
+		a := &AuthIp{path: dir, name: name}
+		n := 4 + round%8
+		var l string
+		for i := 0; i < n; i++ {
+			l += fmt.Sprintf("  - \"10.0.0.%d\"\n", i)
+		}
+		os.WriteFile(name, []byte("enable: true\nip_white_list:\n"+l), 0o644)
+		if err := a.parseAuthIp(); err != nil {
+			t.Fatal(err)
+		}
+		os.WriteFile(name, []byte("enable: true\nip_white_list:\n"), 0o644)
+		if err := a.parseAuthIp(); err != nil {
+			t.Fatal(err)
+		}
+		idle()
+		for i := 0; i < n; i++ {
+			ip := fmt.Sprintf("10.0.0.%d", i)
+			if IpMap.Validate(ip) {
+				verifWitness(t, "round %d: reload listing %d addresses, then at once a reload listing none: Validate(%q) = true", round, n, ip)
+				return
 			}
 		}
 	}
